@@ -4,7 +4,7 @@ from __future__ import annotations
 import ast
 
 from .. import paths
-from ..core import call_attr, calls_in, const, dotted, is_const, kwarg, norm, text, walk_local
+from ..core import FUNC, call_attr, calls_in, const, dotted, is_const, kwarg, norm, text, walk_local
 
 EXPLANATION = [
     'C11.declared-permissions: Server.add_service registers the very objects the application declared (no loop variable over declared descriptors / characteristics is rebound before add_attribute) and builds attributes of its own, with default permissions, only under the test that the application declared none.',
@@ -379,7 +379,43 @@ def bits(ctx):
         R.check(a is not None and norm(a) == f'Permissions.{k}', rule, f'{ATTR}.{k} alias', 'alias of Permissions.' + k, f'Attribute.{k} is not an alias of Permissions.{k}', '')
 
 
+CLASSIC_ONLY_AUTH = {
+    'bumble.device.Device.on_connection_authentication': 'HCI Authentication Complete exists on BR/EDR only; ATT permissions on BR/EDR links are outside what is demonstrated here',
+}
+
+
+def authenticated_source(ctx):
+    """The gate tests `connection.authenticated`: on an LE link that flag may become true only from the strength of the key in
+    use (pairing method / stored key's authenticated flag), not merely because pairing ended or the link got encrypted."""
+    R, p = ctx.r, ctx.p
+    rule = 'C11.authenticated-source'
+    m = p.modules.get('bumble.device')
+    if m is None:
+        R.bad(rule, 'bumble.device', 'anchor missing')
+        return
+    n = 0
+    for fn in [x for x in ast.walk(m.tree) if isinstance(x, FUNC)]:
+        q = p.qual_of(fn)
+        for st in walk_local(fn):
+            if not (isinstance(st, ast.Assign) and any(isinstance(t, ast.Attribute) and t.attr == 'authenticated' and not (isinstance(t.value, ast.Name) and t.value.id == 'self') for t in st.targets)):
+                continue
+            n += 1
+            if q in CLASSIC_ONLY_AUTH:
+                R.ok(rule, f'{q} | authenticated = {norm(st.value)}', 'named exception: ' + CLASSIC_ONLY_AUTH[q], p.loc(st), trivial=True)
+                continue
+            guards = [norm(t) for t, pol in paths.flat_guards(st, stop=fn)]
+            if any('PhysicalTransport.BR_EDR' in g for g in guards):
+                R.ok(rule, f'{q} | authenticated = {norm(st.value)} (BR/EDR)', 'BR/EDR branch (AES-CCM implies a Secure Connections link key); not claimed', p.loc(st), trivial=True)
+                continue
+            from_key = not (isinstance(st.value, ast.Constant)) and any(w in norm(st.value) for w in ('authenticated', 'pairing_method', 'mitm', 'key_type'))
+            guarded = any(any(w in g for w in ('.authenticated', 'pairing_method', 'key_type')) and 'connection.authenticated' not in g for g in guards)
+            R.check(from_key or guarded, rule, f'{q} | authenticated = {norm(st.value)}', 'derived from the strength of the key in use',
+                    f'{q.split(".")[-1]} sets the connection\'s `authenticated` flag to {norm(st.value)} whatever key protects the link: after Just Works pairing (no MITM protection) attributes that require authentication are readable / writable', p.loc(st))
+    R.check(n >= 2, rule, 'bumble.device | writers of Connection.authenticated', f'{n} assignments examined', f'only {n} assignments found')
+
+
 RULES = [
+    ('C11.authenticated-source', authenticated_source),
     ('C11.declared-permissions', declared_permissions),
     ('C11.gate', gate),
     ('C11.access', access),
